@@ -4,7 +4,7 @@
 # answers (how many packets a CTS of the library grants) it uses LIB_GRANT, which only has to be right for the scripts to be valid
 # sessions - the oracle in p_C10.py never uses it.
 import random
-from nodegen import can_id, rx, tp_rts, tp_dt, tp_cm, sender_stream, claim
+from nodegen import can_id, rx, tp_rts, tp_dt, tp_cm, sender_stream, claim, iso_request
 
 TP_PGNS_ADDR = [130816, 65280, 126208, 61184, 127232]      # PGNs with a zero low byte: can go to a specific destination
 TP_PGNS_BCAST = [129029, 126996, 130817, 127489, 65300]
@@ -426,5 +426,50 @@ def gen(seed, tier):
         c = c.replace('q=40', 'q=%d' % r.choice([1, 2, 3, 4]))
         ops = [send_op(0, 130816, 50, rnd_payload(r, 60)), 'A ' + ''.join(r.choice('01') for _ in range(r.randint(1, 12))), cts(50, own[0], 8, 1, 130816), 'P', 'A', 'F', 'P',
                'T 300', 'P'] + fresh_send(r, 0, own[0], 50, 130816)
+        add(c, ops)
+    # --- J: one station carries the SAME PGN to the same destination by transport protocol and as a fast packet at the same time: the two
+    #        reassemblies are separate connections (keyed by PGN, source, destination AND carriage), both messages arrive
+    for _ in range(10 if not thorough else 150):
+        c, own = cfg(r, ndev=r.choice([1, 2]), slots=r.choice([5, 8, 2, 3]))
+        p = r.choice([50, 51])
+        pgn = r.choice([130816, 130817, 129029, 127489, 126996])
+        bam = ((pgn >> 8) & 0xff) >= 240 or r.random() < 0.3
+        dst = 255 if bam else r.choice(own)
+        tp = recv_script(r, p, dst, pgn, rnd_payload(r, r.choice([9, 20, 37, 100, 223])), bam=bam, per_step=r.choice([None, 1, 2]))
+        fr = sender_stream(r, pgn, p, dst, rnd_payload(r, r.choice([5, 9, 20, 43, 100])), prio=r.choice([3, 6]))
+        fps = []
+        while fr:
+            m = r.randint(1, 3)
+            fps.append(fr[:m])
+            fr = fr[m:]
+        scripts = [tp, fps] if r.random() < 0.8 else [tp, fps, fp_traffic(r, own, k=1)]
+        add(c, interleave(r, scripts) + fresh_recv(r, p, r.choice(own), 130816))
+
+    # --- K: a transfer of our own in flight (BAM, answered or unanswered RTS) while other deferred work of the same device comes and goes:
+    #        ISO requests whose answers the driver refuses (product / configuration information is retried 187 + 8/10 * source ms later),
+    #        address claim requests; the transfer must go on / be abandoned on time, and a later transfer must start
+    for _ in range(12 if not thorough else 200):
+        c, own = cfg(r, ndev=r.choice([1, 1, 2]), src0=r.choice([0, 5, 22]))
+        c = c.replace('q=40', 'q=%d' % r.choice([3, 5, 8, 40]))
+        idev = r.randrange(len(own))
+        kind = r.choice(['bam', 'bam', 'rts-silent', 'rts'])
+        n = r.choice([30, 60, 100, 223])
+        ops = []
+        if kind == 'bam':
+            ops += [send_op(idev, r.choice(TP_PGNS_BCAST), 255, rnd_payload(r, n)), 'P']
+        else:
+            ops += [send_op(idev, 130816, 50, rnd_payload(r, n)), 'P']
+        # deferred answers: the driver refuses the next frames, then accepts again
+        for _k in range(r.randint(1, 3)):
+            ops += ['T %d' % r.choice([0, 5, 20, 49])]
+            ops += ['A ' + '0' * r.choice([1, 2, 8, 30]), iso_request(r.choice([60, 61]), own[idev], r.choice([126996, 126998, 126996, 60928, 126464])), 'P', 'A']
+        if kind == 'rts' and r.random() < 0.7:
+            ops += [cts(50, own[idev], r.choice([1, 2, 5]), 1, 130816), 'P']
+        t = 0
+        while t < r.choice([400, 900, 2200]):
+            dt = r.choice([1, 10, 25, 51, 60, 100, 190])
+            t += dt
+            ops += ['T %d' % dt, 'P']
+        ops += fresh_send(r, idev, own[idev], 51, 130816)
         add(c, ops)
     return cases
